@@ -6,6 +6,7 @@ import (
 
 	"verif/mc"
 	"verif/netsim"
+	"verif/rtr"
 )
 
 // c04Field is one MAC-protected value of a path.
@@ -63,26 +64,7 @@ func TestC04(t *testing.T) {
 							asSeq = append(asSeq, c.To)
 						}
 						// owner position of every hop field: hop fields are traversed in order; an AS at a cross-over owns two
-						hopOwner := make([]int, len(lay.HopOff))
-						{
-							pos, h := 0, 0
-							segLens := segLensOf(raw, lay.MetaOff)
-							segEnd := 0
-							for s, l := range segLens {
-								segEnd += l
-								for ; h < segEnd; h++ {
-									hopOwner[h] = pos
-									if h < segEnd-1 {
-										pos++
-									}
-								}
-								// last hop of segment s and first hop of segment s+1 belong to the same AS, unless this is
-								// a peering path (segments joined by a peering link: different ASes)
-								if s+1 < len(segLens) && (raw[lay.InfoOff[s]]&2) != 0 {
-									pos++
-								}
-							}
-						}
+						hopOwner := c04HopOwner(raw, lay)
 						infOwner := make([]int, len(lay.InfoOff))
 						{
 							h := 0
@@ -178,4 +160,27 @@ func crossingsBefore(o netsim.Outcome, k int) int {
 		}
 	}
 	return n
+}
+
+// c04HopOwner: position (number of crossings made before) of the AS owning each hop field: hop fields are traversed in
+// order; an AS at a cross-over owns the last hop field of one segment and the first of the next, unless the segments
+// are joined by a peering link (then those are two ASes).
+func c04HopOwner(raw []byte, lay rtr.Layout) []int {
+	hopOwner := make([]int, len(lay.HopOff))
+	pos, h := 0, 0
+	segLens := segLensOf(raw, lay.MetaOff)
+	segEnd := 0
+	for s, l := range segLens {
+		segEnd += l
+		for ; h < segEnd; h++ {
+			hopOwner[h] = pos
+			if h < segEnd-1 {
+				pos++
+			}
+		}
+		if s+1 < len(segLens) && (raw[lay.InfoOff[s]]&2) != 0 {
+			pos++
+		}
+	}
+	return hopOwner
 }
